@@ -324,13 +324,21 @@ def check_objects(ctx, quick):
         'sample': lambda A: A.sample(),
     }
     broken = set()
+    # building the object again from the same data and seed is itself a history: it must work and give the same object
+    try:
+        fa, fb = fp(RG.quiet(methods['call'], obj())), fp(RG.quiet(methods['call'], obj()))
+        ctx.check(fa == fb, 'history:ANOVA', 'a second ANOVA object built from the same data and seed evaluates differently from the first')
+    except Exception as ex:
+        ctx.violation('history:ANOVA', 'building / evaluating a second ANOVA object from the same data and seed raised %s: %s' % (type(ex).__name__, ex))
+        return
     for name, m_ in methods.items():
         try:
             RG.quiet(m_, obj())
         except Exception as ex:
-            # a method that does not work on a fresh object is outside this check (noted, sequences using it are skipped)
+            # every method works on a fresh object of the pinned tree: an exception here is a verdict (sequences using the
+            # method are skipped)
             broken.add(name)
-            ctx.notes.setdefault('object_methods_skipped', []).append('%s: %s' % (name, type(ex).__name__))
+            ctx.violation('history:ANOVA', 'ANOVA method %s raised %s on a fresh object (order 2, shape %s): %s' % (name, type(ex).__name__, n, ex))
     seen = {}
     nrun = 0
     for hist in res.json:
@@ -357,5 +365,5 @@ def check_objects(ctx, quick):
                           % (st['x'], what, seen[key][1], '' if st['op'] == 'M' else ' and same earlier draws'), case={'hist': hist})
             else:
                 seen[key] = (got, what)
-    if nrun == 0:
+    if nrun == 0 and not broken:
         raise tlc.TlcError('no ObjHistory behaviour could be replayed')
